@@ -48,7 +48,7 @@ def main():
     dst = os.path.join(V, 'seeded', name)
     os.makedirs(dst, exist_ok=True)
     for f in ('patch.diff', 'demo.sh', 'meta.json'):
-        if os.path.exists(os.path.join(src, f)):
+        if os.path.exists(os.path.join(src, f)) and os.path.realpath(src) != os.path.realpath(dst):
             shutil.copy(os.path.join(src, f), dst)
     meta = json.load(open(os.path.join(dst, 'meta.json'))) if os.path.exists(os.path.join(dst, 'meta.json')) else {}
     patch = os.path.join(dst, 'patch.diff')
@@ -92,6 +92,9 @@ def main():
                 rc, out = sh([os.path.join(V, 'bin', 'check'), p, '--tier', 'quick'], cwd=V, timeout=3600)
                 lines = [l for l in out.splitlines() if l.startswith('VIOLATION') or l.startswith('HARNESS') or l.startswith('  ')]
                 results[p] = {'exit': rc, 'lines': lines[:4]}
+                rp = os.path.join(V, 'replays', '%s-quick-%s.json' % (p, os.environ.get('VERIF_SEED', '1')))
+                if rc == 1 and os.path.exists(rp):      # keep the replay the check wrote, next to the seeded change
+                    shutil.copy(rp, os.path.join(dst, 'replay-%s.json' % p))
                 print(p, 'exit', rc, ' | '.join(lines[:2])[:300])
         finally:
             sh(['git', '-C', '/repo', 'checkout', '--', '.'])
